@@ -86,17 +86,17 @@ func parmapWorld(r *R) {
 		plans[i] = p
 	}
 	taken, yielded := 0, 0
-	maxOutstanding := 0
+	// A Next call that is in progress may already have released its result's slot inside the
+	// library although it has not returned yet, so the item it is about to return counts as yielded.
+	nextInFlight := 0
 	onPull := func() {
 		taken++
-		if taken-yielded > maxOutstanding {
-			maxOutstanding = taken - yielded
-		}
-		if taken-yielded == bound {
+		out := taken - yielded - nextInFlight
+		if out == bound {
 			r.Probe("in-flight-at-bound")
 		}
-		if taken-yielded > bound {
-			r.Violate("C14", "in-flight-bound", "%d source items are taken but not yet yielded; bufferSize=%d parallelism=%d allows at most %d", taken-yielded, bufferSize, eff, bound)
+		if out > bound {
+			r.Violate("C14", "in-flight-bound", "%d source items are taken but not yet yielded (%d taken, %d returned, %d Next call in progress); bufferSize=%d parallelism=%d allows at most %d", out, taken, yielded, nextInFlight, bufferSize, eff, bound)
 		}
 	}
 	running := 0
@@ -158,7 +158,9 @@ func parmapWorld(r *R) {
 					sim.Sleep(cpause, "consumer-pause")
 				}
 				sim.Self().Label = fmt.Sprintf("MapIterator.Next #%d", yielded)
+				nextInFlight = 1
 				v, ok := it.Next()
+				nextInFlight = 0
 				sim.Self().Label = ""
 				r.Hist("next", v, ok)
 				r.Logf("Next -> %d %v", v, ok)
@@ -251,7 +253,9 @@ func parmapWorld(r *R) {
 				r.Fault("ctx_precancelled")
 			}
 			c := cs.Begin("consumer", "Next", k, ctx)
+			nextInFlight = 1
 			v, err := ms.Next(ctx.C)
+			nextInFlight = 0
 			cs.End(c, v, err == nil, err)
 			if err == nil {
 				if yielded >= n || v != yielded*3+1 {
